@@ -430,3 +430,38 @@ func prewarmAdminTokens(tmp string) {
 	}
 	wg.Wait()
 }
+
+// holdWriteLock takes the database's WRITE LOCK on a connection of its own (a second *sql.DB on the same file,
+// BEGIN IMMEDIATE): "another writer is busy" - e.g. the headers synchronisation in a long transaction.  Readers go
+// on, every write of the service waits for its busy timeout.  release() rolls the transaction back; a safety release
+// happens after 12 s.
+func holdWriteLock(dbPath string) (release func(), err error) {
+	db, err := stdsql.Open("sqlite3", "file:"+dbPath+"?_busy_timeout=2000")
+	if err != nil {
+		return nil, err
+	}
+	ctx := context.Background()
+	conn, err := db.Conn(ctx)
+	if err != nil {
+		_ = db.Close()
+		return nil, err
+	}
+	if _, err := conn.ExecContext(ctx, "BEGIN IMMEDIATE"); err != nil {
+		_ = conn.Close()
+		_ = db.Close()
+		return nil, err
+	}
+	var once sync.Once
+	release = func() {
+		once.Do(func() {
+			_, _ = conn.ExecContext(ctx, "ROLLBACK")
+			_ = conn.Close()
+			_ = db.Close()
+		})
+	}
+	go func() {
+		time.Sleep(12 * time.Second)
+		release()
+	}()
+	return release, nil
+}
